@@ -23,7 +23,9 @@ def gen_case(rng, kind, nmax=7, malformed=False):
     elif malformed and kind == 'SIR' and r < 0.75:
         case['i0'] = None; case['rho'] = F(1, 4); case['r0'] = [gc.order[-1]]     # rho + initial_recovereds: EoNError (Gillespie_SIR)
     elif r < 0.12:
-        case['i0'] = None; case['rho'] = rng.choice([None, F(1, 4), F(1, 2), F(3, 8), F(1)])
+        case['i0'] = None; case['rho'] = rng.choice([None, None, F(1, 4), F(1, 2), F(3, 8), F(1)])
+        if kind == 'SIR' and case['rho'] is None and rng.random() < 0.6:      # default start node with initially recovered nodes given
+            case['r0'] = rng.sample(gc.order, rng.randint(0, max(0, n - 1)))
     else:
         k = rng.randint(1, min(3, n)) if rng.random() < 0.95 else 0
         sel = rng.sample(gc.order, k)
@@ -171,11 +173,13 @@ def oracle_generator(case, impl, m=None):
     if case['i0'] is None:
         k = 1 if case['rho'] is None else int(round(n * float(case['rho'])))
         e = nxt()
-        if e is None or e[0] != 'S' or e[1] != k or sorted(e[2]) != [(i,) for i in range(n)]:
-            bad.append(('rho/sample', 'initial infected nodes not drawn as random.sample(all nodes, %d): %r' % (k, e))); return bad
-        if k > n:
+        excl = {im[u] for u in (case['r0'] or [])} if kind == 'SIR' else set()
+        want = [(i,) for i in range(n) if i not in excl]
+        if e is None or e[0] != 'S' or e[1] != k or sorted(e[2]) != want:
+            bad.append(('rho/sample', 'initial infected nodes not drawn as random.sample(all nodes that are not initially recovered, %d): %r' % (k, e))); return bad
+        if k > len(want):
             return bad
-        r = int(draws[di - 1]) % max(1, n)
+        r = int(draws[di - 1]) % max(1, len(want))
         pop = sorted(e[2]); I0 = [x[0] for x in (pop[r:] + pop[:r])[:k]]
     else:
         I0 = [im[u] for u in case['i0']]
